@@ -454,3 +454,123 @@ for _refine in (True, False):
                 weight=_n * _n * (3 if _simp else 1),
                 shards=1 if _n == 1 else 16,
             )(_elim(_n, _refine, _simp))
+
+
+# ------------------------------------------------------------------------------------------------
+# tactics 1 and 3 (context reduction via a Kaykobad-positive linear system); sympy.solve by its contract A6
+# ------------------------------------------------------------------------------------------------
+class SolveContract:
+    """A6 at the call site PolyhedralTerm.solve_for_variables(context, vars): the terms, read as equalities, are solved
+    for the variables of `vars` that occur in them.  A dict is returned iff the solution is unique (non-zero determinant);
+    it is then THE solution (Cramer's rule, <=2 unknowns), expressed over the remaining variables.  Otherwise {}."""
+
+    def __init__(self, h, s):
+        self.h, self.s = h, s
+        self.calls = []
+        h.I.stubs[POLY + ":PolyhedralTerm.solve_for_variables"] = self.stub
+
+    def stub(self, I, args, kwargs):
+        s = self.s
+        ctx_tl, elim = args[0], args[1]
+        terms = list(ctx_tl.attrs["terms"].items)
+        elim_names = [v.attrs["_name"] for v in elim.items]
+        cvars = []
+        for t in terms:
+            for n in s.coefs(t):
+                if n not in cvars:
+                    cvars.append(n)
+        vts = [n for n in cvars if n in elim_names]
+        rec = {"terms": terms, "solve_for": vts}
+        self.calls.append(rec)
+        if len(terms) != len(vts):
+            raise PyRaise(ExcObj(ValueError, ("The number of equations does not match the number of variables to solve for",)))
+        n = len(vts)
+        res = PDict(self.h.ctx)
+        if n == 0:
+            return res
+        if n > 2:
+            raise Unsupported("solve_for_variables with %d unknowns (contract instantiated for <=2)" % n)
+        M = [[s.coef(t, v) for v in vts] for t in terms]
+        others = [o for o in cvars if o not in vts]
+        det = M[0][0] if n == 1 else M[0][0] * M[1][1] - M[0][1] * M[1][0]
+        if self.h.ctx.branch(det == 0, "solve.singular"):
+            rec["outcome"] = "no unique solution"
+            return res
+        rec["outcome"] = "unique"
+
+        # right-hand sides d_i = c_i - sum_o t_i[o]*o   (as: constant part, coefficient per other variable)
+        def rhs(i, o=None):
+            return s.const(terms[i]) if o is None else -s.coef(terms[i], o)
+
+        def sol(j, o=None):
+            if n == 1:
+                return rhs(0, o) / det
+            if j == 0:
+                return (rhs(0, o) * M[1][1] - rhs(1, o) * M[0][1]) / det
+            return (M[0][0] * rhs(1, o) - M[1][0] * rhs(0, o)) / det
+
+        PTc = s.PT
+        for j, v in enumerate(vts):
+            d = PDict(self.h.ctx)
+            for o in others:
+                ov = s.var(o)
+                from pyvc.interp import key_token
+
+                d.keys[key_token(ov)] = ov
+                d.vals[key_token(ov)] = sol(j, o)
+            # value of the variable = sum coef*o - constant   (term notation of substitute_variable)
+            t = I.instantiate(PTc, [d, -sol(j, None)], {})
+            kv = s.var(v)
+            from pyvc.interp import key_token as kt
+
+            res.keys[kt(kv)] = kv
+            res.vals[kt(kv)] = t
+        return res
+
+
+def _tactic1(nctx, names, elims, which):
+    def c(h):
+        s = S(h)
+        term = s.term("t", names, allow_empty=False)
+        ctx_terms = [s.term("g%d" % i, names, allow_empty=False) for i in range(nctx)]
+        ctx = s.termlist(ctx_terms)
+        elim = elims[h.ctx.choose(len(elims), "elim")]
+        _require_conflict(s, term, elim)
+        refine = h.ctx.choose(2, "refine") == 0
+        SolveContract(h, s)
+        snaps = [s.snapshot(t) for t in [term] + ctx_terms]
+        out = h.call(h.I.get_func(PTL + which), [term, ctx, PList([s.var(n) for n in elim], h.ctx), refine])
+        if out.kind == "raise":
+            h.check("C14.%s.declines_only_with_valueerror" % which, out.exc_is(h.I, ValueError), "raised %s at %s" % (out.exc_name, out.where))
+            h.cover("declined")
+        else:
+            res = out.value
+            ok = isinstance(res, tuple) and len(res) == 2 and s.is_term(res[0])
+            h.check("C04.%s.returns_term_and_count" % which, ok, "%r" % (res,))
+            if ok:
+                h.cover("transformed")
+                r = res[0]
+                h.ensure("C04.%s.bound" % which, z3.Implies(s.sat(ctx), bound_ok(s, term, r, refine)))
+                h.check("C06.%s.no_auxiliary_variable" % which, "_" not in s.coefs(r), "the auxiliary variable '_' survives in the result")
+                h.check("C13.%s.fresh" % which, r is not term and all(r is not g for g in ctx_terms), "result is an operand")
+        h.check("C13.operands_unchanged", all(s.unchanged(t, sn) for t, sn in zip([term] + ctx_terms, snaps)), "operand modified")
+        h.frame_ok(out, "C13.frame")
+
+    return c
+
+
+for _which in ("_tactic_1", "_tactic_3"):
+    for _nctx, _names, _elims, _tier, _sh in ((1, V2, [["y"], ["x", "y"]], "quick", 2), (2, V2, [["y"], ["x", "y"], ["y", "x"]], "quick", 16), (2, V3, [["x", "y"], ["y", "x"]], "thorough", 16), (3, V2, [["x", "y"]], "thorough", 16)):
+        contract(
+            "PolyhedralTermList.%s[%d context terms over %s]" % (_which, _nctx, ",".join(_names)),
+            ["C04", "C14", "C13", "C06"],
+            [PTL + _which, PTL + "_context_reduction", PTL + "_get_kaykobad_context", POLY + ":PolyhedralTerm.substitute_variable"],
+            "S",
+            bound="term and %d context terms over {%s} (every support); eliminated variables %s; at most 2 simultaneously solved variables" % (_nctx, ",".join(_names), _elims),
+            assumes=["A6"],
+            covers=["declined", "transformed"],
+            chain=["C01", "C02"],
+            tier=_tier,
+            shards=_sh,
+            weight=8 if _nctx > 1 else 2,
+        )(_tactic1(_nctx, _names, _elims, _which))
